@@ -17,14 +17,14 @@ import numpy as np
 import scipy.sparse as sps
 
 PROP = "C36"
-N = {"quick": 600, "thorough": 40000}
+N = {"quick": 600, "thorough": 20000}
 WORKERS = {"quick": 4, "thorough": 16}
-TIMEOUT = {"quick": 300, "thorough": 900}
-CASE_TIMEOUT = 60.0
+TIMEOUT = {"quick": 300, "thorough": 3000}
+CASE_TIMEOUT = 300.0
 RULE = ("chains of 1-3 composable slicers; each slicer is a permutation, an injection into a "
         "larger range, a restriction (domain indices only: the onto fast path), a partial "
         "injective map or a range-only prolongation, with explicit or implicit range/domain "
-        "sizes (sizes 1-9, up to 1200 in the thorough tier), optionally transposed inside the "
+        "sizes (sizes 1-9, 150-400 in 2 % of the thorough tier), optionally transposed inside the "
         "chain; operands carry distinct random values; non-trivial = the first slicer moves "
         "at least 2 entries and is not the identity; distinct = hash of the index sets, "
         "sizes and data seed")
@@ -149,7 +149,7 @@ def _maybe(rng, size, idx):
 def generate(rng, tier, i):
     nch = int(rng.choice([1, 1, 2, 3]))
     big = tier == "thorough" and rng.random() < 0.02
-    ds = int(rng.integers(300, 1200)) if big else int(rng.integers(1, 10))
+    ds = int(rng.integers(150, 400)) if big else int(rng.integers(1, 10))
     chain = []
     # chain[-1] acts first:  S0 @ S1 @ S2 @ x
     size = ds
